@@ -18,7 +18,7 @@ Line-protocol handler of the `packet` family.  One line = one whole connection h
 `packet.read <n0>:<proto>:<crcC> <mode ops> <stream> <chunks> <rbuf> <claim>` (reader only; `<claim>` is for the oracle),
 `packet.wlen <proto> <len>`, `packet.hs <seed> <enc> <proto> <client packets> <server packets> <chunk> <corrupt>`.
 
-Result: `wire=<hex> w=<failed writes> r=<packets read…,e:<final error>> pong=<bytes the reader wrote back>`.
+Result: `ok wire=<hex> w=<failed writes> r=<packets read…,e:<final error>> pong=<bytes the reader wrote back>`.
 -/
 namespace TLVerif.Packet
 open TLVerif.Util TLVerif.Facts.Packet
@@ -136,7 +136,7 @@ def conn (st script chunks cor : String) : String :=
         let res := readLoop (chunkSrc e) e sched (wire'.length + 2) { n := n0, mode := mode } { chunks := cs }
         let errs := writeErrs e ops 0 w0
         let werrs := if errs.isEmpty then "-" else ",".intercalate errs
-        s!"wire={hexOfBytes wire} w={werrs} {showRes e sched n0 mode res}"
+        s!"ok wire={hexOfBytes wire} w={werrs} {showRes e sched n0 mode res}"
   | _, _, _ => "bad-op"
 
 /-- reader only, on an arbitrary stream: `<n0>:<proto>:<crcC> <mode ops|-> <stream> <chunks>` -/
@@ -151,7 +151,7 @@ def readOnly (st modes stream chunks : String) : String :=
     let sched := fun k => if k = n0 then ms else []
     let cs := chunkBy (2 * wire.length + 2) sizes sizes wire
     let res := readLoop (chunkSrc e) e sched (wire.length + 2) { n := n0, mode := mode } { chunks := cs }
-    showRes e sched n0 mode res
+    "ok " ++ showRes e sched n0 mode res
   | _, _, _, _ => "bad-op"
 
 /-- `WritePacketHeaderUnlocked` length validation -/
